@@ -4,7 +4,8 @@ Shape B (explicit-state search over merge histories). A state is a history of ke
 convert_generic_body_to_phs + append_to_abstract_graph; states are deduplicated by the printed abstract PE. In EVERY state, for
 each kernel of the history, the real decode_abstract_graph must succeed and the abstract PE evaluated (machines/pe.py) under the
 decoded switch values must compute that kernel's function on all inputs of a small box; the number of values must equal
-get_true_switches() and the number of phs_switch_i fields of the PHS accelerator.
+get_true_switches() and the number of phs_switch_i fields of the PHS accelerator; one SNAXPHSAccelerator instance then lowers every kernel of the
+history in order (get_switch_values) and the switch constants it emits must configure the PE for that kernel as well.
 """
 from __future__ import annotations
 
@@ -26,7 +27,7 @@ RULE = (
     "alphabet: kernel bodies with 1-2 integer ops from {addi, subi, muli} (+ andi, xori in thorough) over two data inputs with every routing (swapped operands, "
     "second op consuming the first on either side, an input used twice), and a three-input family; states = merge histories (quick: all of length <= 2 over "
     "the full alphabet and length 3 over a 14-kernel sub-alphabet; thorough: the 5-op alphabet (360 kernels), all histories of length <= 2, length 3-4 over a 14-kernel sub-alphabet), deduplicated by the printed abstract PE; "
-    "each state: decode every kernel of its history and evaluate on {-2,-1,0,1,2,3,7}^n. distinct = distinct abstract PEs; non-trivial = PE has >= 1 true switch"
+    "each state: decode every kernel of its history (directly and through one SNAXPHSAccelerator instance that lowers the whole history in order) and evaluate on {-2,-1,0,1,2,3,7}^n. distinct = distinct abstract PEs; non-trivial = PE has >= 1 true switch"
 )
 ASSUMPTIONS = [
     "PE semantics of machines/pe.py (choose = case by switch value, mux = rhs iff switch == 1)",
@@ -149,8 +150,10 @@ def evaluate(case) -> CaseResult:
     r.states = 1
     r.sample = dict(history=[repr(k) for k in ks], abstract_pe=text, true_switches=ntrue)
     # number of switch fields of the PHS accelerator
+    acc = None
     try:
-        nfields = _phs_switch_fields(abstract)
+        acc = _phs_accelerator(abstract)
+        nfields = sum(1 for f in acc.fields if f.startswith("phs_switch_"))
     except Exception as e:
         nfields = None
         r.count("acc_build_failed:" + type(e).__name__)
@@ -180,6 +183,33 @@ def evaluate(case) -> CaseResult:
         r.validated += 1
         if bad:
             r.violate(key + "|function", case_j, f"{bad}; history {ks}")
+            continue
+        # the same kernel through the accelerator that lowers every kernel of the history (one SNAXPHSAccelerator instance, kernels in history order):
+        # the switch constants it emits must configure the PE for this kernel too
+        if acc is not None:
+            try:
+                g = next(op for op in common.parse(kernel_text(k, nin)).walk() if op.name == "linalg.generic")
+                acc_values = [ops[0].value.value.data for ops, _ in acc.get_switch_values(g)]
+            except (MappingNotFoundError, AssertionError, KeyError) as e:
+                r.violate(key + "|acc-undecodable", case_j, f"SNAXPHSAccelerator.get_switch_values fails for kernel #{j} {k} of the history: {type(e).__name__}; history {ks}")
+                continue
+            r.transitions += 1
+            if acc_values != values:
+                bad = None
+                if len(acc_values) != ntrue:
+                    bad = f"{len(acc_values)} switch constants for {ntrue} true switches"
+                else:
+                    for data in itertools.product(BOX, repeat=nin):
+                        try:
+                            got = PE.evaluate(abstract, list(data), acc_values)[0]
+                        except InterpError as e:
+                            bad = f"the merged PE cannot be evaluated with them: {e}"
+                            break
+                        if got != kernel_fn(k, data):
+                            bad = f"the merged PE computes {got} on inputs {data}, the kernel computes {kernel_fn(k, data)}"
+                            break
+                if bad:
+                    r.violate(key + "|acc-function", case_j, f"SNAXPHSAccelerator.get_switch_values emits switch values {acc_values} for kernel #{j} {k} (lowered after kernels {ks[:j]} by the same accelerator): {bad}; history {ks}")
     return r
 
 
@@ -198,13 +228,10 @@ def space(tier):  # noqa: F811
     return _orig_space(tier)
 
 
-def _phs_switch_fields(pe):
+def _phs_accelerator(pe):
     from snaxc.accelerators.snax_phs import SNAXPHSAccelerator
-    from snaxc.phs.template_spec import TemplateSpec
 
-    spec = _template_spec(len(pe.data_operands()))
-    acc = SNAXPHSAccelerator(pe, spec)
-    return sum(1 for f in acc.fields if f.startswith("phs_switch_"))
+    return SNAXPHSAccelerator(pe, _template_spec(len(pe.data_operands())))
 
 
 _SPEC = []
